@@ -26,7 +26,7 @@ from dask._task_spec import Task, TaskRef, Alias
 
 PROPERTY = "C20"
 LEVEL = "other"
-BUDGET = {"quick": 150, "thorough": 1500}
+BUDGET = {"quick": 240, "thorough": 1800}
 
 EXPLANATION = (
     "Bounded symbolic execution (symx: SInt proxies over z3 Int, fork on every comparison, DFS over decision "
@@ -48,9 +48,9 @@ ASSUMPTIONS = [
 ]
 STUBS = ["AST rewrite: slice.indices -> symx.patch.py_indices in normalize_slice",
          "dask.array.slicing.int -> ShimInt, .math -> math_shim, .np -> np_shim (isnan only)"]
-ENUM = ["number of chunks per axis (1..3) and the step (one obligation each)",
+ENUM = ["number of chunks per axis (1..3) and the step (one obligation each)", "every input of the take[...] obligations (integer-array indexers run through NumPy)",
         "operands of new_blockdim's float ceil (concretised)"]
-OUTSIDE = ["integer / boolean array indexers, take, _shuffle, vindex, blocks[] (NumPy fancy-index code)",
+OUTSIDE = ["vindex, blocks[], dask-array indexers; integer / boolean NumPy array indexers only as solver-enumerated concrete inputs (obligation take[...])",
            "unknown (NaN) chunk sizes", "arrays with more than 2 dimensions, more than 3 chunks per axis, chunk sizes > bound"]
 
 BOUNDS = {
@@ -381,6 +381,178 @@ def mk_2d(kinds0, nbs, steps, maxc, with_none):
     return Obligation(name, setup, run, patches=_patches, e2e=e2e, e2e_every=11)
 
 
+def mk_take(maxlen, maxc, two_d):
+    """integer-array indexers (sorted, unsorted, duplicates, negatives) and the boolean masks derived from them, through the public
+    getitem: the index values end up in NumPy arrays (np.searchsorted / fancy indexing), so the solver enumerates them"""
+    def setup(e):
+        ls = (e.int("l0", 1, maxc), e.int("l1", 1, maxc))
+        dim = ls[0] + ls[1]
+        n = 1 + e.choice("n", maxlen)
+        idx = []
+        for t in range(n):
+            v = e.int(f"v{t}")
+            e.assume(lambda: (v >= -dim) & (v < dim))
+            idx.append(v)
+        as_mask = e.flag("as_mask")
+        return ls, idx, as_mask
+
+    def run(e, ls, idx, as_mask):
+        import operator
+        import dask.array as da
+        ls = tuple(operator.index(c) for c in ls)
+        idx = [operator.index(v) for v in idx]
+        dim = sum(ls)
+        if two_d:
+            x = np.arange(3 * dim).reshape(3, dim) * 3 + 1
+            d = da.from_array(x, chunks=((2, 1), ls))
+        else:
+            x = np.arange(dim) * 3 + 1
+            d = da.from_array(x, chunks=(ls,))
+        if as_mask:
+            m = np.zeros(dim, dtype=bool)
+            m[idx] = True
+            sel = m
+        else:
+            sel = np.array(idx)
+        index = (slice(None), sel) if two_d else (sel,)
+        want = x[index]
+        r = d[index]
+        got = r.compute(scheduler="sync")
+        e.check(got.shape == want.shape and bool((got == want).all()), f"x[{list(sel)}] with chunks {ls}: dask {got.tolist()} numpy {want.tolist()}")
+        if not as_mask:
+            e.check(r.shape == want.shape, f"lazy shape {r.shape} != {want.shape}")
+            e.check(tuple(sum(c) for c in r.chunks) == want.shape, "lazy chunks do not add up to the shape")
+            r2 = d[(slice(None), list(idx)) if two_d else (list(idx),)]
+            e.check(bool((r2.compute(scheduler="sync") == want).all()), "list indexer differs from array indexer")
+        return got.tolist()
+
+    return Obligation(f"take[{'2d' if two_d else '1d'},len<={maxlen},chunk<={maxc}]", setup, run)
+
+
+def mk_tuple(ndim, L, maxc):
+    """index tuples of up to L items over a `ndim`-d array (2 blocks on axis 0, 1 on the others) from the grammar {None, int, slice(a, None) / slice(None, a), full slice, Ellipsis}:
+    lazy output shape/chunks (newaxis positions, dropped integer axes, implicit trailing full slices) against the NumPy rule"""
+    ITEMS = ("N", "i", "s", ":", "E")
+
+    def setup(e):
+        n = 1 + e.choice("len", L)
+        kinds = [e.pick(f"it{t}", ITEMS) for t in range(n)]
+        e.assume(kinds.count("E") <= 1)
+        consuming = sum(1 for k in kinds if k in "is:")
+        e.assume(consuming <= ndim)
+        lss, dims = [], []
+        for ax in range(ndim):
+            nb = 2 if ax == 0 else 1
+            ls = tuple(e.int(f"l{ax}_{i}", 1, maxc) for i in range(nb))
+            lss.append(ls)
+            dims.append(sum(ls[1:], ls[0]))
+        # which input axis each consuming item addresses (Ellipsis swallows the gap)
+        axes = []
+        ax = 0
+        for t, k in enumerate(kinds):
+            if k == "E":
+                after = sum(1 for kk in kinds[t + 1:] if kk in "is:")
+                ax = ndim - after
+                axes.append(None)
+            elif k in "is:":
+                axes.append(ax)
+                ax += 1
+            else:
+                axes.append(None)
+        index = []
+        for t, k in enumerate(kinds):
+            if k == "N":
+                index.append(None)
+            elif k == "E":
+                index.append(Ellipsis)
+            elif k == ":":
+                index.append(slice(None))
+            elif k == "i":
+                d = dims[axes[t]]
+                i = e.int(f"i{t}")
+                e.assume(lambda: (i >= -d) & (i < d))
+                index.append(i)
+            else:
+                d = dims[axes[t]]
+                a = e.int(f"a{t}")
+                e.assume(lambda: (a >= -d - 1) & (a <= d + 1))
+                index.append(slice(a, None, None) if t % 2 == 0 else slice(None, a, None))
+        return kinds, axes, tuple(index), tuple(lss), tuple(dims)
+
+    def expected(kinds, axes, index, dims):
+        """NumPy result shape as a list of ('new',) / ('axis', ax, slice) entries"""
+        out = []
+        used = set()
+        for t, k in enumerate(kinds):
+            if k == "N":
+                out.append(("new",))
+            elif k == "E":
+                after = sum(1 for kk in kinds[t + 1:] if kk in "is:")
+                before = sum(1 for kk in kinds[:t] if kk in "is:")
+                for ax in range(before, len(dims) - after):
+                    out.append(("axis", ax, slice(None)))
+                    used.add(ax)
+            elif k == "i":
+                used.add(axes[t])
+            else:
+                out.append(("axis", axes[t], index[t]))
+                used.add(axes[t])
+        if "E" not in kinds:
+            for ax in range(len(dims)):
+                if ax not in used:
+                    out.append(("axis", ax, slice(None)))
+        return out
+
+    def run(e, kinds, axes, index, lss, dims):
+        idx = S.normalize_index(index, dims)
+        exp = expected(kinds, axes, index, dims)
+        try:
+            dsk, bd = S.slice_array("y", "x", lss, idx)
+        except S.SlicingNoop:
+            e.check(all(x[0] == "axis" for x in exp) and len(exp) == len(dims), "SlicingNoop for an index that adds or drops axes")
+            for _, ax, sl in exp:
+                e.check(lambda: ref_len(dims[ax], sl) == dims[ax], "SlicingNoop although a slice does not keep the whole axis")
+                if sl != slice(None):
+                    a0, b0, c0 = py_indices(sl, dims[ax])
+                    e.check(lambda: a0 == 0, "SlicingNoop although a slice does not start at 0")
+            return "noop"
+        e.check(len(bd) == len(exp), f"result has {len(bd)} dimensions, NumPy gives {len(exp)}")
+        shape = []
+        for oa, x in enumerate(exp):
+            tot = 0
+            for c in bd[oa]:
+                tot = tot + c
+            if x[0] == "new":
+                e.check(tuple(bd[oa]) == (1,), f"output axis {oa} should be a new axis with chunks (1,), got {bd[oa]}")
+            else:
+                want = ref_len(dims[x[1]], x[2])
+                e.check(lambda: tot == want, f"output axis {oa} (input axis {x[1]}): lazy length differs from NumPy's")
+            shape.append(tot)
+        nkeys = 1
+        for c in bd:
+            nkeys *= len(c)
+        e.check(len([k for k in dsk if k[0] == "y"]) == nkeys, "number of output blocks != product of chunk counts")
+        for k in dsk:
+            if k[0] == "y":
+                e.check(len(k) - 1 == len(bd), "output key rank != number of output dimensions")
+        return shape
+
+    def e2e(model):
+        import dask.array as da
+        from symx.core import NativeEngine
+        kinds, axes, index, lss, dims = setup(NativeEngine(model))
+        x = (np.arange(int(np.prod(dims))).reshape(dims) * 5 + 2)
+        d = da.from_array(x, chunks=lss)[index]
+        want = x[index]
+        got = d.compute(scheduler="sync")
+        if d.shape != want.shape or got.shape != want.shape or not (got == want).all():
+            raise Violation(f"x[{index}] chunks {lss}: lazy shape {d.shape}, computed {got.shape}, numpy {want.shape}")
+        if tuple(sum(c) for c in d.chunks) != want.shape:
+            raise Violation(f"chunks {d.chunks} do not add up to {want.shape}")
+
+    return Obligation(f"tuple[ndim={ndim},len<={L}]", setup, run, patches=_patches, e2e=e2e, e2e_every=9)
+
+
 def obligations(tier):
     obs = []
     if tier == "quick":
@@ -402,7 +574,16 @@ def obligations(tier):
         obs.append(mk_2d(("b", "a"), (2, 1), (-2, 3), 3, 3))
         obs.append(mk_2d(("i", "s"), (2, 2), (None, -2), 3, 0))
         obs.append(mk_2d(("s", "i"), (2, 2), (1, None), 3, 2))
+        obs.append(mk_tuple(2, 4, 2))
+        obs.append(mk_tuple(1, 3, 3))
+        obs.append(mk_take(3, 2, False))
+        obs.append(mk_take(2, 2, True))
     else:
+        obs.append(mk_take(5, 3, False))
+        obs.append(mk_take(4, 2, True))
+        obs.append(mk_tuple(1, 4, 3))
+        obs.append(mk_tuple(2, 4, 2))
+        obs.append(mk_tuple(3, 4, 2))
         for k in (("s", "s"), ("i", "s"), ("s", "i")):
             for st in ((1, -1), (2, -2), (-3, 2), (-1, -1)):
                 for wn in (0, 1, 2, 3):
